@@ -81,6 +81,113 @@ fn window_block(cfg: &Cfg, out: &mut Vec<String>) {
 	}
 }
 
+// ---- element type with drop glue: every value has an id, the ledger knows whether it is alive
+thread_local! { static LEDGER: std::cell::RefCell<(Vec<u8>, Vec<String>)> = const { std::cell::RefCell::new((Vec::new(), Vec::new())) }; }
+#[derive(Debug)]
+struct Tracked(usize);
+impl Tracked {
+	fn new() -> Self {
+		LEDGER.with(|l| {
+			let mut l = l.borrow_mut();
+			l.0.push(1);
+			Tracked(l.0.len() - 1)
+		})
+	}
+	fn alive(&self) -> bool {
+		LEDGER.with(|l| l.borrow().0.get(self.0).copied() == Some(1))
+	}
+}
+impl Clone for Tracked {
+	fn clone(&self) -> Self {
+		if !self.alive() {
+			LEDGER.with(|l| l.borrow_mut().1.push(format!("clone of dead #{}", self.0)));
+		}
+		Tracked::new()
+	}
+}
+impl Drop for Tracked {
+	fn drop(&mut self) {
+		LEDGER.with(|l| {
+			let mut l = l.borrow_mut();
+			match l.0.get(self.0).copied() {
+				Some(1) => l.0[self.0] = 0,
+				_ => {
+					let id = self.0;
+					l.1.push(format!("drop of dead #{id}"));
+				}
+			}
+		})
+	}
+}
+fn ledger_state() -> String {
+	LEDGER.with(|l| {
+		let l = l.borrow();
+		format!("alive={} errors={:?}", l.0.iter().filter(|x| **x == 1).count(), l.1)
+	})
+}
+
+/// empty windows (every accessor) and windows of an element type with drop glue
+fn window_edge_block(_cfg: &Cfg, out: &mut Vec<String>) {
+	let block = "window";
+	let r = catch(|| {
+		let mut t = String::new();
+		for (nm, w) in [("empty", Window::<u32>::empty()), ("default", Window::<u32>::default()), ("new0", Window::<u32>::new(0, 7)), ("deser", serde_json::from_str::<Window<u32>>(&serde_json::to_string(&Window::<u32>::empty()).unwrap()).unwrap())] {
+			t.push_str(nm);
+			for i in 0..4 {
+				t.push_str(&format!("g{:?}", w.get(i)));
+			}
+			t.push_str(&format!("l{}e{}{:?}{:?}{:?}", w.len(), w.is_empty(), w.iter().collect::<Vec<_>>(), w.iter_rev().collect::<Vec<_>>(), w.as_slice()));
+			t.push_str(&format!("{:?}{:?}", w.iter().last(), w.iter_rev().last()));
+			let c = w.clone();
+			t.push_str(&format!("c{:?}", c.get(0)));
+		}
+		t
+	});
+	match r {
+		Ok(t) => emit(out, block, "Window(empty forms)", "ok", &t),
+		Err(p) => emit(out, block, "Window(empty forms)", "panic", &p.msg),
+	}
+	for n in [1usize, 2, 3, 5] {
+		let id = format!("Window<Tracked>({n})");
+		let r = catch(|| {
+			LEDGER.with(|l| *l.borrow_mut() = (Vec::new(), Vec::new()));
+			let mut t = String::new();
+			{
+				let mut w: Window<Tracked> = Window::new(n as PeriodType, Tracked::new());
+				t.push_str(&ledger_state());
+				for k in 0..(2 * n + 3) {
+					let old = w.push(Tracked::new());
+					t.push_str(&format!("old-alive={} ", old.alive()));
+					drop(old);
+					t.push_str(&format!("all-alive={} newest-alive={} oldest-alive={} ", w.iter().all(Tracked::alive), w.newest().alive(), w.oldest().alive()));
+					if k == n {
+						let c = w.clone();
+						t.push_str(&format!("clone-alive={} ", c.iter().all(Tracked::alive)));
+						drop(c);
+					}
+					t.push_str(&ledger_state());
+				}
+				let mut y = <yata::methods::Past<Tracked> as yata::core::Method>::new(n as PeriodType, &Tracked::new()).unwrap();
+				for _ in 0..(n + 2) {
+					let o = yata::core::Method::next(&mut y, &Tracked::new());
+					t.push_str(&format!("past-alive={} ", o.alive()));
+				}
+				t.push_str(&ledger_state());
+			}
+			// everything created has been dropped exactly once
+			t.push_str(&ledger_state());
+			t
+		});
+		match r {
+			Ok(t) => {
+				let status = if t.contains("alive=false") || t.contains("errors=[\"") || !t.ends_with("alive=0 errors=[]") { "ledger-error" } else { "ok" };
+				emit(out, block, &id, status, &t)
+			}
+			Err(p) => emit(out, block, &id, "panic", &p.msg),
+		}
+	}
+}
+
 fn seqs(al: &[In], d: usize) -> Vec<Vec<In>> {
 	let mut layer: Vec<Vec<In>> = vec![vec![]];
 	for _ in 0..d {
@@ -314,6 +421,7 @@ fn main() {
 	let want = |b: &str| cfg.only.as_ref().map(|o| b.starts_with(o.as_str()) || o.starts_with(b)).unwrap_or(true);
 	if want("window") {
 		window_block(&cfg, &mut out);
+		window_edge_block(&cfg, &mut out);
 	}
 	if want("method") {
 		methods_block(&cfg, &mut out);
